@@ -300,7 +300,8 @@ func init() {
 		Rule: "one evaluation = 1..3 generated valid harness-dialect frames, each read undamaged, under EVERY single-bit flip of its " +
 			"bytes (enumerated), and under 12 drawn substitutions / bursts / wrong-CRC_EXTRA repairs, by the real reader with the dialect; " +
 			"the outcome (delivered or parse error) is predicted by the bitwise reference CRC; plus one x25 vs bitwise-CRC comparison under a " +
-			"drawn split; distinct = distinct history digest; non-trivial = at least 100 single-bit flips were evaluated",
+			"drawn split, and one frame signed by a key holder read by a keyed reader, intact and with a wrong checksum under a valid signature; " +
+			"every delivered frame is compared with itself at the end of the stream (delivered-stable); distinct = distinct history digest; non-trivial = at least 100 single-bit flips were evaluated",
 		Nontrivial: func(r *dsim.Result) bool {
 			for _, rec := range r.History {
 				if rec.Kind == "flips" {
@@ -309,7 +310,7 @@ func init() {
 			}
 			return false
 		},
-		ProbeUniverse: []string{"fault:single-bit-flip", "fault:byte-substitution", "fault:burst", "fault:wrong-crc-extra"},
+		ProbeUniverse: []string{"fault:single-bit-flip", "fault:byte-substitution", "fault:burst", "fault:wrong-crc-extra", "fault:signed-over-wrong-checksum"},
 		Real:          []string{"pkg/frame.Reader", "pkg/dialect", "pkg/message", "pkg/x25"},
 		Stub:          []string{"damaging link (bit flips, substitutions, bursts)", "reference CRC and CRC_EXTRA as oracle"},
 	})
